@@ -67,6 +67,19 @@ impl<const X: usize> KalmanState<X> {
         eprintln!("Mean={}", pretty_print!(self.mean.transpose()));
         eprintln!("Covariance={}", pretty_print!(self.covariance));
     }
+
+    /// Read-only view of the state for verification: (mean, covariance in row-major order).
+    #[cfg(similari_verif)]
+    pub fn verif_raw(&self) -> (Vec<f32>, Vec<f32>) {
+        let mean = self.mean.iter().cloned().collect();
+        let mut cov = Vec::with_capacity(X * X);
+        for i in 0..X {
+            for j in 0..X {
+                cov.push(self.covariance[(i, j)]);
+            }
+        }
+        (mean, cov)
+    }
 }
 
 impl<const X: usize> TryFrom<KalmanState<X>> for Universal2DBox {
